@@ -283,6 +283,44 @@ def run(check: Check) -> None:
         rig.run_sym(check, "poly.raw", fn, claims, timeout_ms=tmo, case_id="poly raw",
                     replay=lambda m, l: (("poly_raw", replays.run({"kind": "c13_poly_raw", "x": _floats(m, "x", 2)}), {"kind": "c13_poly_raw", "x": _floats(m, "x", 2)}) if replays.run({"kind": "c13_poly_raw", "x": _floats(m, "x", 2)}) else None))
 
+    # ---------------------------------------------------------------- the same transforms as formulas are evaluated: by NAME, through
+    # stateful_eval (state is threaded into a call only if the callable is marked stateful), and replayed by the spec
+    import pandas
+
+    from formulaic import model_matrix
+    from sr.pipeline import symbolic_pipeline
+    from sr.symreal import same_cell
+
+    for call in ("scale(a)", "center(a)", "standardize(a)", "standardize(a, ddof=1)", "standardize(a, rescale=False)", "scale(a, center=False)",
+                 "poly(a, 2)", "scale(center(a))", "{standardize(a) * 2}"):
+        def fn(call=call):
+            a, y = sym_vector("a", 3), sym_vector("y", 1)
+            with symbolic_pipeline():
+                mm = model_matrix(f"0 + {call}", pandas.DataFrame(index=range(3)), context={"a": a}, output="numpy")
+                spec = mm.model_spec
+                mixed = spec.get_model_matrix(pandas.DataFrame(index=range(2)), context={"a": as_sym_array([a[1], y[0]])})
+                alone = spec.get_model_matrix(pandas.DataFrame(index=range(1)), context={"a": as_sym_array([y[0]])})
+            return numpy.asarray(mm, dtype=object).reshape((3, -1)), numpy.asarray(mixed, dtype=object).reshape((2, -1)), numpy.asarray(alone, dtype=object).reshape((1, -1)), spec
+
+        def claims(res, call=call):
+            mm, mixed, alone, spec = res
+            yield "state recorded under the call", bool(len(spec.transform_state) >= 1)
+            k = mm.shape[1]
+            yield "a training row replays to its recorded encoding", z3.And(*[same_cell(mixed[0, j], mm[1, j]) for j in range(k)])
+            yield "a fresh row is encoded independently of its companions (recorded statistics, not re-fitted)", z3.And(*[same_cell(mixed[1, j], alone[0, j]) for j in range(k)])
+
+        def rep(model, label, call=call):
+            p = {"kind": "c13_formula_state", "call": call, "a": _floats(model, "a", 3), "y": _floats(model, "y", 1)}
+            for cand in (p, dict(p, a=[0.5, 2.0, 4.25], y=[7.0])):
+                bad = replays.run(cand)
+                if bad:
+                    return (f"formula_state({call})", bad, cand)
+            return None
+
+        pre_d = [z3.Real(f"a{i}") != z3.Real(f"a{j}") for i in range(3) for j in range(i + 1, 3)]
+        rig.run_sym(check, "formula.state", fn, claims, pre=pre_d, replay=rep, timeout_ms=tmo, case_id=f"formula state {call}",
+                    sample=f"model_matrix('0 + {call}') then spec replay: a training row and a fresh row")
+
     # ---------------------------------------------------------------- elementwise built-ins
     expected = {"log": "LOG", "log2": "LOG2", "log10": "LOG10", "exp": "EXP", "exp2": "EXP2", "exp10": "POW10"}
     for name, sym in expected.items():
